@@ -17,7 +17,7 @@ PROPS = {
         "title": "Every algorithm emits a sound, gap-free, index-exact edit script",
         "module": "SimilarVerif.Props.C01",
         "suites": ["raw", "deadline", "api"],
-        "rule": "raw: all sequence pairs up to length 4 (thorough 5) over 3 symbols x 3 algorithms, all sub-range pairs of pairs up to length 3 (thorough 4) with slice and offset lookups, plus structured random pairs (7 families); non-trivial = at least one change and one equal item; distinct by request hash",
+        "rule": "raw: all sequence pairs up to length 4 (thorough 5) over 3 symbols x 3 algorithms, all sub-range pairs of pairs up to length 3 (thorough 4) with slice and offset lookups, plus structured random pairs (7 families); non-trivial = at least one change and one equal item; distinct by request hash; api: every thin public entry point (per-algorithm modules, diff/diff_slices, capture wrappers, Capture::into_*, TextDiff::from_*, diff_slices, owned text types, builder/getter/formatter re-use, Change/InlineChange accessors and Display, udiff::unified_diff, remapper slices, get_close_matches on bytes) against its canonical path on exhaustive small and random cases (implementation-only, metamorphic)",
         "theorem_status": "LCS full (total + valid, every clock). Myers full (total + valid, every clock): Myers' middle-snake theory is formalised (furthest-reaching invariant, overlap at ceil(D/2), split point on an optimal path inside the box, not a corner) and discharges SnakeInBox/SnakeFound for every environment. Patience full (total + valid, every clock; needs the same-side comparisons of `unique` in bounds). Replay/coverage corollaries. Shift invariance full: diffing a sub-range = diffing the extracted slices with every index shifted by the range starts, all algorithms, every clock, aborts and counters included, also for arbitrary related hooks (Lemmas/Shift.lean).",
         "level_text": "Lean theorems: LCS, Myers and Patience total + valid (all inputs, in-bounds ranges, every clock; Myers' middle-snake theory formalised); replay and coverage corollaries; shift invariance of sub-range diffs. Exact call traces, comparison and probe counts of all three algorithms are compared with the model on exhaustive small scopes and random inputs, and an independent strict walker validates the implementation's streams.",
         "level_note": "the model is tied to the code by differential testing only; release-build wrap-around of usize is modelled as a panic (checked build)",
@@ -36,8 +36,8 @@ PROPS = {
         "title": "Grouping keeps every change once, in order, with exactly n items of context",
         "module": "SimilarVerif.Props.C12",
         "suites": ["group", "text", "api"],
-        "rule": "group: all alternating op lists with <= 2 (thorough 3) changes of the three kinds, equal-run lengths 1..2n+2, optional leading/trailing equal run, n <= 2 (thorough 4), plus random lists with run lengths around the 2n threshold; non-trivial = at least two groups",
-        "theorem_status": "full: changes kept once in order, contiguity, no all-equal group, context = min(n, available) from the adjacent end, interior runs whole and <= 2n, separation iff > 2n",
+        "rule": "group: all alternating op lists with <= 2 (thorough 3) changes of the three kinds, equal-run lengths 1..2n+2, optional leading/trailing equal run, n <= 2 (thorough 4), plus random lists with run lengths around the 2n threshold; non-trivial = at least two groups; api: every thin public entry point (per-algorithm modules, diff/diff_slices, capture wrappers, Capture::into_*, TextDiff::from_*, diff_slices, owned text types, builder/getter/formatter re-use, Change/InlineChange accessors and Display, udiff::unified_diff, remapper slices, get_close_matches on bytes) against its canonical path on exhaustive small and random cases (implementation-only, metamorphic)",
+        "theorem_status": "full: changes kept once in order, contiguity, no all-equal group, context = min(n, available) from the adjacent end, interior runs whole and <= 2n, separation iff > 2n; group_captured: the AltOps hypothesis holds for every captured diff, so all clauses hold for groupDiffOps of whatever capture_diff returns (any algorithm, any clock)",
         "level_text": "Lean theorems about the model of group_diff_ops for all op lists and radii; model compared with the code exhaustively on a small scope; direct re-statement validator on the implementation.",
         "level_note": "clauses about all-equal groups need `AltOps` (no adjacent Equal ops), which is the form of captured diffs (C09); counterexample without it is recorded in the Props file",
     },
@@ -45,7 +45,7 @@ PROPS = {
         "title": "Expanding ops into changes and slices is faithful",
         "module": "SimilarVerif.Props.C13",
         "suites": ["changes", "text", "api"],
-        "rule": "changes: every op of the four kinds with offsets/lengths 0..L (quick L=5, thorough L=8) over sequences of distinct values, exhaustive, each iterator also driven through nth/skip/step_by/count/last/fold/size_hint against plain next(); text: iter_all_changes of every text diff of the text suite compared with the per-op expansions and driven the same way; non-trivial = expands to >= 2 changes; distinct by request hash",
+        "rule": "changes: every op of the four kinds with offsets/lengths 0..L (quick L=5, thorough L=8) over sequences of distinct values, exhaustive, each iterator also driven through nth/skip/step_by/count/last/fold/size_hint against plain next(); text: iter_all_changes of every text diff of the text suite compared with the per-op expansions and driven the same way; non-trivial = expands to >= 2 changes; distinct by request hash; api: every thin public entry point (per-algorithm modules, diff/diff_slices, capture wrappers, Capture::into_*, TextDiff::from_*, diff_slices, owned text types, builder/getter/formatter re-use, Change/InlineChange accessors and Display, udiff::unified_diff, remapper slices, get_close_matches on bytes) against its canonical path on exhaustive small and random cases (implementation-only, metamorphic)",
         "theorem_status": "full: per-op expansion, slice expansion, whole-diff iteration and apply_to_hook are proved for all ops",
         "level_text": "Lean theorems for all ops: ChangesIter/AllChangesIter state machines drained = the specified lists; slices cover the same items; apply_to_hook reproduces the op. Model tied to the code by exhaustive small-scope differential testing of iter_changes/iter_slices.",
         "level_note": "trusted: Lean kernel; hand-written model of src/iter.rs checked against the code by the correspondence harness only on the explored ops",
@@ -58,7 +58,7 @@ PROPS.update({
         "title": "Captured ops form a valid edit script old->new",
         "module": "SimilarVerif.Props.C02",
         "suites": ["cap", "deadline", "text", "api"],
-        "rule": "cap: capture_diff_deadline on all pairs up to length 4 (thorough 5) over 3 symbols, all sub-ranges of pairs up to 3 (thorough 4) with slice/offset lookups, structured random pairs; each case also through Compact(Replace(hook)) built by hand and with the repair switch; deadline: every expiry point; non-trivial = a change and an equal item",
+        "rule": "cap: capture_diff_deadline on all pairs up to length 4 (thorough 5) over 3 symbols, all sub-ranges of pairs up to 3 (thorough 4) with slice/offset lookups, structured random pairs; each case also through Compact(Replace(hook)) built by hand and with the repair switch; deadline: every expiry point; non-trivial = a change and an equal item; api: every thin public entry point (per-algorithm modules, diff/diff_slices, capture wrappers, Capture::into_*, TextDiff::from_*, diff_slices, owned text types, builder/getter/formatter re-use, Change/InlineChange accessors and Display, udiff::unified_diff, remapper slices, get_close_matches on bytes) against its canonical path on exhaustive small and random cases (implementation-only, metamorphic)",
         "theorem_status": "full for everything that follows from validity of the op list (application, coverage, ratio in [0,1], ratio = 1 iff no change iff element-wise equal) and for the Replace->Capture stage on any valid script; Compact stage and end-to-end factorisation of captureDiff into raw stream -> clean-up -> Replace proved (Lemmas/Capture.lean): whatever capture_diff_deadline returns is a valid alternating op list, all algorithms, every clock; identical inputs give exactly [Equal(os,ns,n)] (nothing for n = 0) for every algorithm and clock, never a panic (Lemmas/Identical.lean; Patience under EqPattern, counterexample without it recorded)",
         "level_text": "Lean theorems about any valid op list, the factorisation of the capture pipeline and its validity end to end for all three algorithms (unconditional), identical inputs give exactly one Equal op; captured op lists of the implementation compared with the model exactly (incl. comparison/probe counts) and validated by an independent walker / replayer / ratio check.",
         "level_note": "f32 ratio is computed natively in the driver, theorems are over the exact fraction",
@@ -67,7 +67,7 @@ PROPS.update({
         "title": "Myers and LCS report a shortest edit script; ratio = 2*LCS/(N+M)",
         "module": "SimilarVerif.Props.C03",
         "suites": ["raw", "cap", "text"],
-        "rule": "raw/cap as for C01/C02; the validator computes a brute-force DP LCS for every Myers and LCS run (raw and captured) and compares deleted+inserted, equal total and the f32 ratio",
+        "rule": "raw/cap as for C01/C02; the validator computes a brute-force DP LCS for every Myers and LCS run (raw and captured) and compares deleted+inserted, equal total and the f32 ratio; text: TextDiff::ops of every text diff of the text suite through the same validators (normal form / exact positions with known-finding attribution / minimality and f32 ratio)",
         "theorem_status": "lower bound for every valid script (full); LCS minimal for all inputs and sub-ranges (full); clean-up and Replace keep item counts (partial correctness of Compact); Myers minimal (full: raw stream costs N+M-2L and beats every valid script; theory in Lemmas/MyersTheory+MyersOptimal); captured Myers and captured LCS end to end (capture_myers_minimal, capture_lcs_minimal_total: for in-bounds ranges without deadline the capture function RETURNS, its ops are valid, cost N+M-2L, nEq = L, ratio pair (2L, N+M), no valid script is cheaper)",
         "level_text": "Lean theorems: cost >= N+M-2L for every valid script; LCS raw stream attains it (table correctness + greedy walk optimality + prefix/suffix stripping); clean-up preserves counts; Myers raw stream attains it as well (middle-snake theory: the split point lies on an optimal path). Minimality is also validated on the implementation by brute force on the whole explored space.",
         "level_note": "Spec.lcsLen is the textbook recursion; ratio = 2L/(N+M) is proved for the exact fraction, the f32 value is the soft-float F32.ratio of that pair (Model/F32.lean), proved monotone and exact below 2^24, compared bit for bit with the implementation and with native Float32 on every request",
@@ -104,8 +104,8 @@ PROPS.update({
         "title": "Captured diffs are in canonical normal form",
         "module": "SimilarVerif.Props.C09",
         "suites": ["cap", "script", "deadline", "text"],
-        "rule": "cap/deadline/script as for C02/C07/C10; the normal-form validator (alternation, no empty op, delete+insert merged, insert at latest position) runs on every captured op list and on every arbitrary script pushed through Compact+Replace",
-        "theorem_status": "clauses 1-3 (alternation, no adjacent changes, no empty op) full for Replace on any valid script; clause 4 (insertion at latest position) full for the clean-up output (CompactT.cleanup_insert_latest, both swap variants)",
+        "rule": "cap/deadline/script as for C02/C07/C10; the normal-form validator (alternation, no empty op, delete+insert merged, insert at latest position) runs on every captured op list and on every arbitrary script pushed through Compact+Replace; text: TextDiff::ops of every text diff of the text suite through the same validators (normal form / exact positions with known-finding attribution / minimality and f32 ratio)",
+        "theorem_status": "clauses 1-3 (alternation, no adjacent changes, no empty op) full for Replace on any valid script; clause 4 (insertion at latest position) full for the clean-up output (CompactT.cleanup_insert_latest, both swap variants); END TO END (capture_normal_form / capture_normalForm): for every algorithm, in-bounds ranges and EVERY clock the capture function returns a valid op list satisfying all four clauses (clause 4 carried through Replace: in the cleaned list every insertion is followed by an equal op or nothing, so a lone insertion before an equal run reaches the output unchanged)",
         "level_text": "Lean theorems: clauses 1-3 for the Replace stage on every valid script, clause 4 (insertion at its latest position) for the output of the clean-up on every valid script (shipped and repaired swap); clean-up model compared with the code on all valid scripts of a small scope and on every captured diff.",
         "level_note": "clause 4 is proved for the clean-up output; its transport through the Replace stage (which merges neighbours) is covered by the normal-form validator on every captured op list",
     },
@@ -113,8 +113,8 @@ PROPS.update({
         "title": "Every captured op carries exact positions in both sequences",
         "module": "SimilarVerif.Props.C11",
         "suites": ["cap", "deadline", "text"],
-        "rule": "cap as for C02, without deadline; every captured op list is checked for exact positions; a failing case is re-run with the cfg(similar_verif) swap-repair switch and attributed to the known finding only if the failure disappears",
-        "theorem_status": "the unchanged code violates C11 (known finding KF-compact-swap): counterexample theorem on the shipped model; with the swap repair the clean-up keeps exactness for all valid scripts; shipped and repaired variants differ only in carried indices; Replace/LCS/Myers-without-deadline stages exact; end to end: captured Myers ops exact with the repaired swap (unconditional)",
+        "rule": "cap as for C02, without deadline; every captured op list is checked for exact positions; a failing case is re-run with the cfg(similar_verif) swap-repair switch and attributed to the known finding only if the failure disappears; text: TextDiff::ops of every text diff of the text suite through the same validators (normal form / exact positions with known-finding attribution / minimality and f32 ratio)",
+        "theorem_status": "the unchanged code violates C11 (known finding KF-compact-swap): counterexample theorem on the shipped model; with the swap repair the clean-up keeps exactness for all valid scripts; shipped and repaired variants differ only in carried indices; Replace/LCS/Myers-without-deadline stages exact; end to end: captured Myers ops exact with the repaired swap (unconditional); capture_exact_repaired_total: with the repaired swap all three algorithms return exact captured ops without deadline (LCS for every clock: capture_lcs_exact_repaired; Patience raw stream exact: patience_raw_exact); expired_deadline_raw_not_exact: the raw Myers fallback insert is Carried but not Exact (rfl on a 2x2 input)",
         "level_text": "Lean theorems: negation witness for the shipped swap, positive theorem for the repaired swap, attribution lemma; both variants of the implementation compared with both variants of the model.",
         "level_note": "KNOWN FINDING listed in known_findings.json; the check prints KNOWN-FINDING and exits 0 only when every failure is attributable to the swap site",
     },
@@ -141,7 +141,7 @@ PROPS.update({
         "title": "Diffs are deterministic and depend only on the equality pattern of the items",
         "module": "SimilarVerif.Props.C20",
         "suites": ["determinism", "text", "api"],
-        "rule": "determinism: small exhaustive and random label sequences x 3 algorithms, each run twice in the calling thread, on two long-lived and (sampled) two freshly spawned threads, with a second hash salt and with injectively relabelled values; text: str vs bytes of the same text, repeated and threaded runs; non-trivial = diff has a change",
+        "rule": "determinism: small exhaustive and random label sequences x 3 algorithms, each run twice in the calling thread, on two long-lived and (sampled) two freshly spawned threads, with a second hash salt and with injectively relabelled values; text: str vs bytes of the same text, repeated and threaded runs; non-trivial = diff has a change; api: every thin public entry point (per-algorithm modules, diff/diff_slices, capture wrappers, Capture::into_*, TextDiff::from_*, diff_slices, owned text types, builder/getter/formatter re-use, Change/InlineChange accessors and Display, udiff::unified_diff, remapper slices, get_close_matches on bytes) against its canonical path on exhaustive small and random cases (implementation-only, metamorphic)",
         "theorem_status": "full at model level: injective relabelling gives the same environment hence the same result of every model function; unique/IdentifyDistinct specified without hash order; str = bytes tokens on valid UTF-8",
         "level_text": "Lean theorems about the model; threads and hasher seeds are runtime behaviour no executable model can exhibit and are covered by the harness (repeated, threaded, re-salted, relabelled runs must agree).",
         "level_note": "the runtime half (threads, RandomState) is testing, labelled as such",
@@ -153,7 +153,7 @@ PROPS.update({
         "title": "Rendered unified diffs are well-formed and apply exactly",
         "module": "SimilarVerif.Props.C05",
         "suites": ["udiff", "api"],
-        "rule": "udiff: line diffs of all texts of up to 4 lines from {a LF, b LF, a CRLF, c CR} optionally ending in a line without terminator, random longer line texts with few edits (several hunks), bytes with invalid UTF-8 x 3 algorithms x radius 0..3 (thorough 0..4) x header on/off x Display/to_writer x str/bytes; the request carries the implementation's ops and tokens, the model renders from them; validator: strict parse + apply of the real output, header counts/starts/order, context <= radius, deletions before insertions, marker placement, writer vs Display; non-trivial = output has >= 1 hunk and context",
+        "rule": "udiff: line diffs of all texts of up to 4 lines from {a LF, b LF, a CRLF, c CR} optionally ending in a line without terminator, random longer line texts with few edits (several hunks), bytes with invalid UTF-8 x 3 algorithms x radius 0..3 (thorough 0..4) x header on/off x Display/to_writer x str/bytes; the request carries the implementation's ops and tokens, the model renders from them; validator: strict parse + apply of the real output, header counts/starts/order, context <= radius, deletions before insertions, marker placement, writer vs Display; non-trivial = output has >= 1 hunk and context; api: every thin public entry point (per-algorithm modules, diff/diff_slices, capture wrappers, Capture::into_*, TextDiff::from_*, diff_slices, owned text types, builder/getter/formatter re-use, Change/InlineChange accessors and Display, udiff::unified_diff, remapper slices, get_close_matches on bytes) against its canonical path on exhaustive small and random cases (implementation-only, metamorphic)",
         "theorem_status": "structured part full under Exact (positions exact, C11): renderer total, output = structured hunks, strict application gives new, counts/positions/order, equal inputs render empty, context <= radius, deletions first, line and range formats. Byte level: a strict parser of the unified format is proved to read the printed bytes back as exactly the structured hunks (header names, all three range forms, count-driven bodies, missing-newline markers, LF/CRLF/CR terminators) and the parsed hunks patch old into new (Lemmas/UdiffParse.lean; to_writer path with hints, line tokens, names without LF). Display vs writer: display_is_lossy_writer (the Display output is exactly the lossy UTF-8 decoding of the to_writer output, every input, both hint settings) and display_eq_writer_on_utf8. The unchanged code violates the Exact hypothesis at the compaction swap (known finding): counterexample theorem included",
         "level_text": "Lean theorems about the model renderer for all valid exact op lists, radii and settings; rendered bytes of the implementation compared with the model byte for byte (Display and writer), and parsed + strictly applied by an independent validator.",
         "level_note": "KNOWN FINDING KF-compact-swap-udiff (stale carried index after the compaction swap feeds wrong header positions); a failing case is attributed to it only if it disappears when the diff is rebuilt with the cfg(similar_verif) swap repair",
@@ -162,7 +162,7 @@ PROPS.update({
         "title": "A text diff is the sequence diff of its tokens at every size and config",
         "module": "SimilarVerif.Props.C14",
         "suites": ["text", "identify", "api"],
-        "rule": "text: 5 tokenizers x str/bytes x 3 algorithms x newline override over an exhaustive small text space, random texts and near-identical texts with 95..110 tokens on one or both sides; identify: IdentifyDistinct over exhaustive small and random label sequences with offset lookups and sub-ranges; non-trivial = diff has a change and an equal",
+        "rule": "text: 5 tokenizers x str/bytes x 3 algorithms x newline override over an exhaustive small text space, random texts and near-identical texts with 95..110 tokens on one or both sides; identify: IdentifyDistinct over exhaustive small and random label sequences with offset lookups and sub-ranges; non-trivial = diff has a change and an equal; api: every thin public entry point (per-algorithm modules, diff/diff_slices, capture wrappers, Capture::into_*, TextDiff::from_*, diff_slices, owned text types, builder/getter/formatter re-use, Change/InlineChange accessors and Display, udiff::unified_diff, remapper slices, get_close_matches on bytes) against its canonical path on exhaustive small and random cases (implementation-only, metamorphic)",
         "theorem_status": "full at model level: textDiffOps = captureDiff on the token environment for every size; identifyDistinct total, ids equal iff items equal (all four side combinations), first-seen numbering, ranges kept",
         "level_text": "Lean theorems: the 100-token switch is invisible (the id arrays induce the same environment, by funext) and the integer mapping is a faithful first-seen numbering; TextDiff::ops compared with capture_diff_slices on the tokens by the validator and with the model on both sides of the threshold.",
         "level_note": "the Rust HashMap is specified (first-seen ids), not modelled; more distinct items than the integer type holds is out of scope as the property states",
@@ -171,8 +171,8 @@ PROPS.update({
         "title": "Inline changes re-split each line losslessly; only changed words emphasised",
         "module": "SimilarVerif.Props.C16",
         "suites": ["inline", "api"],
-        "rule": "inline: line diffs of text pairs sharing words (multi-byte words, mixed terminators, missing final newline) x algorithms x inline deadline none / expired / small fuel; every op of every diff through iter_inline_changes_deadline; word segmentation passed as external parameter; non-trivial = a Replace op passing both ratio gates",
-        "theorem_status": "full relative to (i) the word segmenter's contract SegsOK and (ii) validity of the second-level captured ops (C02): same tags/indices as plain expansion, segments concatenate to the line, emphasised segments are non-newline runs without line breaks, missing-newline flag agrees; both outcomes of each ratio gate covered; the gates are soft-float comparisons (F32.lt .. F32.half) and gate_fires_iff characterises them exactly below 2^24 tokens (fires iff 4*matches < len)",
+        "rule": "inline: line diffs of text pairs sharing words (multi-byte words, mixed terminators, missing final newline) x algorithms x inline deadline none / expired / small fuel; every op of every diff through iter_inline_changes_deadline; word segmentation passed as external parameter; non-trivial = a Replace op passing both ratio gates; api: every thin public entry point (per-algorithm modules, diff/diff_slices, capture wrappers, Capture::into_*, TextDiff::from_*, diff_slices, owned text types, builder/getter/formatter re-use, Change/InlineChange accessors and Display, udiff::unified_diff, remapper slices, get_close_matches on bytes) against its canonical path on exhaustive small and random cases (implementation-only, metamorphic)",
+        "theorem_status": "full relative to (i) the word segmenter's contract SegsOK and (ii) validity of the second-level captured ops (C02): same tags/indices as plain expansion, segments concatenate to the line, emphasised segments are non-newline runs without line breaks, missing-newline flag agrees; both outcomes of each ratio gate covered; the gates are soft-float comparisons (F32.lt .. F32.half) and gate_fires_iff characterises them exactly below 2^24 tokens (fires iff 4*matches < len); hypothesis (ii) discharged: second_level_total/valid, replace_refined_uncond, inline_changes_total (for a valid line diff over non-empty line tokens and a segmenter meeting SegsOK every op expands without panic with the stated tags, indices, concatenations, emphasis shape and missing-newline flag), inline_text_diff_total (from the two texts, any algorithm and clock)",
         "level_text": "Lean theorems for every op kind and both outcomes of both ratio gates; the implementation's inline changes are compared with the model segment by segment under the virtual clock.",
         "level_note": "unicode word segmentation is an external parameter; f32 gates are modelled by the soft-float model F32 (cross-checked against native Float32 by the driver on every request)",
     },
@@ -189,7 +189,7 @@ PROPS.update({
         "title": "get_close_matches equals exhaustive ranking by similarity ratio",
         "module": "SimilarVerif.Props.C18",
         "suites": ["close", "api"],
-        "rule": "close: words and candidate lists (2-5 candidates incl. duplicates and the empty string) over {a,b,c,e-acute} up to length 4 x n 0..4 x cutoffs incl. values hit exactly, random longer words; thorough adds the tiny-ratio family (200000-char candidates); validator: brute-force ranking with the crate's own ratio(); non-trivial = >= 2 candidates pass",
+        "rule": "close: words and candidate lists (2-5 candidates incl. duplicates and the empty string) over {a,b,c,e-acute} up to length 4 x n 0..4 x cutoffs incl. values hit exactly, random longer words; thorough adds the tiny-ratio family (200000-char candidates); validator: brute-force ranking with the crate's own ratio(); non-trivial = >= 2 candidates pass; api: every thin public entry point (per-algorithm modules, diff/diff_slices, capture wrappers, Capture::into_*, TextDiff::from_*, diff_slices, owned text types, builder/getter/formatter re-use, Change/InlineChange accessors and Display, udiff::unified_diff, remapper slices, get_close_matches on bytes) against its canonical path on exhaustive small and random cases (implementation-only, metamorphic)",
         "theorem_status": "FULL, no hypothesis: get_close_matches_is_exhaustive_ranking — for every tokenizer, word, candidate list, n and cutoff bit pattern (NaN, negative, subnormal, infinite included) the model returns exactly the first n of all candidates whose f32 ratio is >= cutoff, sorted by ratio descending then lexicographically; the two pre-filters are invisible (prefilters_are_invisible / filters_never_discard_f32); heap-key order = IEEE order of the ratios (key_order_is_ratio_order); the f32 operations are the soft-float model F32 (n as f32, 2.0*x, correctly rounded x/y, IEEE comparisons on arbitrary patterns) whose rounding is PROVED monotone (soft_float_rounding_is_monotone discharges the former Rnd hypothesis)",
         "level_text": "Lean theorems over a soft-float model of the f32 operations (exact natural-number arithmetic, validated against hardware on 5*10^5 vectors in lean/test-f32 and re-checked against native Float32 by the driver on every request); the implementation's results are compared bit for bit on every request.",
         "level_note": "trusted: hardware f32 = the soft-float model F32 on the values that occur (cross-checked on every run); no IEEE fact is assumed in any theorem",
@@ -202,7 +202,7 @@ PROPS.update({
         "module": "SimilarVerif.Props.C04",
         "suites": ["text"],
         "rule": "text: 5 tokenizers x str/bytes x 3 algorithms over an exhaustive small text space (pieces with LF, CRLF, CR, no terminator, multi-byte, spaces), random texts (bytes: invalid UTF-8) and near-identical texts around the 100-token switch; validator: reassembly of both texts from iter_all_changes and from per-op iter_changes, index discipline; non-trivial = a change and an equal",
-        "theorem_status": "full as a composition: any valid op list over tiling tokens reconstructs both texts byte for byte with consecutive indices and the right index shape; instantiated for the model's text diff with LCS and Myers unconditionally and Patience whenever it returns; unicode tokenizers relative to the external segmenter's Partition contract",
+        "theorem_status": "full as a composition: any valid op list over tiling tokens reconstructs both texts byte for byte with consecutive indices and the right index shape; instantiated for the model's text diff with LCS and Myers unconditionally and Patience whenever it returns; unicode tokenizers relative to the external segmenter's Partition contract; END TO END (text_diff_total_reconstructs): for every algorithm, every clock and token ranges that tile the two texts, the text diff RETURNS, its whole-diff expansion has the index shape of the property (consecutive indices from 0 on each side) and reconstructs both texts byte for byte; text_diff_total_linesB: no hypothesis at all for the byte line tokenizer",
         "level_text": "Lean theorems composing C06 (tiling tokens), C02 (captured ops walk both token lists) and C13 (faithful expansion); TextDiff of the implementation compared with the model (token counts, ops, flags) and validated by reassembly.",
         "level_note": "unicode-segmentation / bstr segmenters are external parameters with contract Partition",
     },
